@@ -347,14 +347,52 @@ def run_history(sh, res):
     return res
 
 
+def run_barrage(sh, res):
+    """many malformed UPDATE bodies in ONE Established session, good ones in between: the session stays up whatever their number"""
+    rng = random.Random(sh['seed'])
+    V = {}
+    upd = [b for t, b in corpus.messages() if t == 2]
+    base_attrs = wrap_attr(1, b'\x00') + wrap_attr(2, b'') + wrap_attr(3, b'\x0a\x00\x00\x02')
+    malformed = [update_body(wrap_attr(1, b'\x07') + base_attrs[4:]), update_body(base_attrs, b'\x21\x01\x02\x03\x04\x05'),
+                 update_body(base_attrs + wrap_attr(4, b'\x00')), update_body(wrap_attr(2, b'\x09\x01\x00\x00\xfd\xe9') + base_attrs)]
+    n_err = 0
+    for run in range(sh['n']):
+        w, tr = world_in('ESTABLISHED')
+        n0 = len(w.handler.ev)
+        sent = 0
+        for i in range(rng.choice([20, 40, 120])):
+            body = rng.choice(malformed) if rng.random() < 0.7 else mutate.random_mutation(rng.choice(upd), rng)[:2000]
+            if len(body) < 4:
+                continue
+            w.deliver(frame(2, body), tr)
+            sent += 1
+            if rng.random() < 0.3:
+                w.deliver(S.UPD_ROUTE, tr)
+            if w.state_direct() != 'ESTABLISHED' or tr.disconnecting or not tr.connected:
+                V.setdefault('barrage', dict(kind='update-tore-down-session', features=['barrage'],
+                                             detail='the session ended (state %s) at malformed UPDATE number %d of one session; written: %s' % (
+                                                 w.state_direct(), sent, [wire.summarize(f) for f in wire.frames_of_writes(tr.written)][-2:]),
+                                             replay=dict(barrage_seed=sh['seed'], run=run)))
+                break
+        n_err += len([e for e in w.handler.ev[n0:] if e[0] == 'on_update_error'])
+        res['evaluations'] += 1
+        res['distinct'].append('barrage|%d|%d' % (sh['seed'], run))
+    res['counters'] = dict(barrage_sessions=sh['n'], barrage_error_reports=n_err)
+    res['violations'] = list(V.values())
+    return res
+
+
 def plan(tier, seed):
     n = 16
     per = 20000 if tier == 'quick' else 150000
     return [dict(part=i, nparts=n, seed=seed * 100 + i, n=per, tier=tier) for i in range(n)] + \
-        [dict(kind='history', seed=seed * 100 + i, n=300 if tier == 'quick' else 3000, tier=tier) for i in range(2 if tier == 'quick' else 8)]
+        [dict(kind='history', seed=seed * 100 + i, n=300 if tier == 'quick' else 3000, tier=tier) for i in range(2 if tier == 'quick' else 8)] + \
+        [dict(kind='barrage', seed=seed * 100 + 70 + i, n=30 if tier == 'quick' else 600, tier=tier) for i in range(2 if tier == 'quick' else 8)]
 
 
 def run_shard(sh):
+    if sh.get('kind') == 'barrage':
+        return run_barrage(sh, dict(evaluations=0, counters={}, maxima={}, sets={}, distinct=[], samples=[], violations=[]))
     if sh.get('kind') == 'history':
         return run_history(sh, dict(evaluations=0, counters={}, maxima={}, sets={}, distinct=[], samples=[], violations=[]))
     METER.install()
